@@ -267,7 +267,7 @@ class ShapeSystem(System):
                 else:
                     if int(hits[0][1]) != exp:
                         bad(k, m, exp, int(hits[0][1]), f, "warning")
-                    elif hits[0][0] != expsrc:
+                    if hits[0][0] != expsrc:  # (judged on its own: a wrong line must not hide a wrong file)
                         bad(k, m, expsrc, hits[0][0], f, "warning source")
                 dig.append((k, hits[0][1] if len(hits) == 1 else len(hits)))
                 continue
@@ -303,9 +303,10 @@ class ShapeSystem(System):
                 continue
             if leaf.line != exp:
                 bad(k, m, exp, leaf.line, f, "node")
-            elif getattr(leaf, "source", None) not in (None, expsrc):
+            if getattr(leaf, "source", None) not in (None, expsrc):
                 bad(k, m, expsrc, leaf.source, f, "node source")
             dig.append((k, leaf.line))
+        viol.sort(key=lambda v: "explained_by" in v["signature"])  # the suite-pinned deviations last: they must not crowd out anything else
         return Obs(digest=(lk, tuple(dig)), nontrivial=bool(ws), violations=viol[:5], canon=(lk, tuple(ws)))
 
 
